@@ -16,7 +16,7 @@ use super::{
 use crate::{
     ff::{
         U128Conversions,
-        boolean_array::{BA3, BA8, BA32, BA64, BA112},
+        boolean_array::{BA3, BA8, BA16, BA32, BA64, BA112},
     },
     protocol::ipa_prf::shuffle::ShardedShuffle,
     report::hybrid::{AggregateableHybridReport, IndistinguishableHybridReport},
@@ -90,6 +90,40 @@ impl RowKind for AggregateableHybridReport<BA8, BA3> {
     }
     fn plain(v: u128) -> Vec<u128> {
         vec![v & 7, (v >> 3) & 0xff]
+    }
+}
+
+// the widest reports the shuffle shares can hold: match key + value + breakdown key fill BA112 / BA32 exactly
+impl RowKind for IndistinguishableHybridReport<BA32, BA16> {
+    const NAME: &'static str = "hybrid-report(64+16+32, exact fit)";
+    fn share(v: u128, rng: &mut StdRng) -> [Self; 3] {
+        let mk: [AdditiveShare<BA64>; 3] = BA64::truncate_from(v).share_with(rng);
+        let val: [AdditiveShare<BA16>; 3] = BA16::truncate_from(v >> 64).share_with(rng);
+        let bk: [AdditiveShare<BA32>; 3] = BA32::truncate_from((v >> 80) | (1 << 31)).share_with(rng);
+        std::array::from_fn(|h| Self { match_key: mk[h].clone(), value: val[h].clone(), breakdown_key: bk[h].clone() })
+    }
+    fn parts(&self) -> (Vec<u128>, Vec<u128>) {
+        (
+            vec![self.match_key.left().as_u128(), self.value.left().as_u128(), self.breakdown_key.left().as_u128()],
+            vec![self.match_key.right().as_u128(), self.value.right().as_u128(), self.breakdown_key.right().as_u128()],
+        )
+    }
+    fn plain(v: u128) -> Vec<u128> {
+        vec![v & u128::from(u64::MAX), (v >> 64) & 0xffff, ((v >> 80) | (1 << 31)) & 0xffff_ffff]
+    }
+}
+impl RowKind for AggregateableHybridReport<BA16, BA16> {
+    const NAME: &'static str = "aggregation-row(16+16, exact fit)";
+    fn share(v: u128, rng: &mut StdRng) -> [Self; 3] {
+        let val: [AdditiveShare<BA16>; 3] = BA16::truncate_from(v).share_with(rng);
+        let bk: [AdditiveShare<BA16>; 3] = BA16::truncate_from((v >> 16) | (1 << 15)).share_with(rng);
+        std::array::from_fn(|h| Self { match_key: (), value: val[h].clone(), breakdown_key: bk[h].clone() })
+    }
+    fn parts(&self) -> (Vec<u128>, Vec<u128>) {
+        (vec![self.value.left().as_u128(), self.breakdown_key.left().as_u128()], vec![self.value.right().as_u128(), self.breakdown_key.right().as_u128()])
+    }
+    fn plain(v: u128) -> Vec<u128> {
+        vec![v & 0xffff, ((v >> 16) | (1 << 15)) & 0xffff]
     }
 }
 
@@ -168,6 +202,8 @@ arm!(arm_ba32, AdditiveShare<BA32>);
 arm!(arm_ba112, AdditiveShare<BA112>);
 arm!(arm_report, IndistinguishableHybridReport<BA8, BA3>);
 arm!(arm_agg, AggregateableHybridReport<BA8, BA3>);
+arm!(arm_report_fit, IndistinguishableHybridReport<BA32, BA16>);
+arm!(arm_agg_fit, AggregateableHybridReport<BA16, BA16>);
 
 #[test]
 fn run() {
@@ -176,8 +212,8 @@ fn run() {
     let rt = fault::runtime(6);
     let seed = common::seed() + 505;
     let ns: Vec<usize> = if thorough { (0..=16).collect() } else { vec![0, 1, 2, 3, 5, 8] };
-    for kind in 0..4usize {
-        let name = [<AdditiveShare<BA32> as RowKind>::NAME, <AdditiveShare<BA112> as RowKind>::NAME, <IndistinguishableHybridReport<BA8, BA3> as RowKind>::NAME, <AggregateableHybridReport<BA8, BA3> as RowKind>::NAME][kind];
+    for kind in 0..6usize {
+        let name = [<AdditiveShare<BA32> as RowKind>::NAME, <AdditiveShare<BA112> as RowKind>::NAME, <IndistinguishableHybridReport<BA8, BA3> as RowKind>::NAME, <AggregateableHybridReport<BA8, BA3> as RowKind>::NAME, <IndistinguishableHybridReport<BA32, BA16> as RowKind>::NAME, <AggregateableHybridReport<BA16, BA16> as RowKind>::NAME][kind];
         for shards in [1usize, 2, 3] {
             for &n in &ns {
                 let mut assigns: Vec<Vec<usize>> = vec![(0..n).map(|i| i % shards).collect(), vec![0; n], vec![shards - 1; n]];
@@ -203,7 +239,9 @@ fn run() {
                             0 => go!(arm_ba32),
                             1 => go!(arm_ba112),
                             2 => go!(arm_report),
-                            _ => go!(arm_agg),
+                            3 => go!(arm_agg),
+                            4 => go!(arm_report_fit),
+                            _ => go!(arm_agg_fit),
                         };
                         if let Err(e) = res {
                             r.violation(
